@@ -69,6 +69,7 @@ def signature(case, violation):
         sig["where"] = violation["detail"].get("where")
     sig["async"] = any(d["async_reset"] for d in case["prog"]["domains"])
     sig["part_select_on_partly_owned_signal"] = progdrv.partial_part_targets(case["prog"]) > 0
+    sig["rename_target_shadowed"] = progdrv.rename_target_shadowed(case["prog"])
     return sig
 
 
